@@ -5,7 +5,16 @@ import (
 	nd "github.com/samaritan-proxy/samaritan/vfnd"
 )
 
-var vfKeys = []string{"a", "b", "c", "d"}
+// the last key is longer than any size a "reasonable key" limit might be set at
+var vfKeys = []string{"a", "b", "c", vfLongKey()}
+
+func vfLongKey() string {
+	b := make([]byte, 1100)
+	for i := range b {
+		b[i] = 'k'
+	}
+	return string(b)
+}
 
 // vfRepOK walks the counter's frequency list: well linked both ways, nodes non-empty and strictly
 // ascending, every item points at its node, the map is exactly the union of the item lists.
